@@ -37,7 +37,8 @@ type Call struct {
 	C int `json:"c,omitempty"`
 }
 
-var callNames = []string{"m.String", "m.WriteTo", "f.LLString", "b.LLString", "inst.LLString", "v.String", "v.Ident", "v.Type", "g.LLString", "f.String+Ident+Type", "term.LLString"}
+var callNames = []string{"m.String", "m.WriteTo", "f.LLString", "b.LLString", "inst.LLString", "v.String", "v.Ident", "v.Type", "g.LLString", "f.String+Ident+Type", "term.LLString",
+	"metadata def Ident+LLString", "alias/ifunc LLString", "typedef String+LLString", "operands String", "param LLString", "named metadata LLString"}
 
 func (c Call) String() string {
 	return fmt.Sprintf("%s(%d,%d,%d)", callNames[c.K%len(callNames)], c.A, c.B, c.C)
@@ -116,6 +117,48 @@ func doCall(m *ir.Module, c Call) (string, bool) {
 	case 10:
 		if b := blk(); b != nil && b.Term != nil {
 			return b.Term.LLString(), true
+		}
+	case 11:
+		if len(m.MetadataDefs) > 0 {
+			md := m.MetadataDefs[c.A%len(m.MetadataDefs)]
+			return md.Ident() + " = " + md.LLString(), true
+		}
+	case 12:
+		if len(m.Aliases) > 0 {
+			return m.Aliases[c.A%len(m.Aliases)].LLString(), true
+		}
+		if len(m.IFuncs) > 0 {
+			return m.IFuncs[c.A%len(m.IFuncs)].LLString(), true
+		}
+	case 13:
+		if len(m.TypeDefs) > 0 {
+			t := m.TypeDefs[c.A%len(m.TypeDefs)]
+			return t.String() + " = " + t.LLString(), true
+		}
+	case 14:
+		if in := inst(); in != nil {
+			var sb strings.Builder
+			for _, op := range in.Operands() {
+				if *op != nil {
+					sb.WriteString((*op).String())
+					sb.WriteString("; ")
+				}
+			}
+			return sb.String(), true
+		}
+	case 15:
+		if f := fn(); f != nil && len(f.Params) > 0 {
+			return f.Params[c.B%len(f.Params)].LLString(), true
+		}
+	case 16:
+		if len(m.NamedMetadataDefs) > 0 {
+			var names []string
+			for n := range m.NamedMetadataDefs {
+				names = append(names, n)
+			}
+			sort.Strings(names)
+			nd := m.NamedMetadataDefs[names[c.A%len(names)]]
+			return nd.Ident() + " = " + nd.LLString(), true
 		}
 	}
 	return "", false
